@@ -22,6 +22,9 @@ def t_no_effect_before_raise(ev, outcome, exc):
 
 def t_single_transaction(ev, outcome, exc):
     """C09: all effects of one operation lie before one commit; none after it."""
+    if any(e[0] == 'db.savepoint' for e in ev):
+        return ("the operation opens a nested transaction / savepoint: its release is a transaction boundary of "
+                "its own, so the effects of the operation are no longer covered by one commit")
     if outcome != 'return':
         return True
     idx_eff = [i for i, e in enumerate(ev) if _is_effect(e)]
